@@ -27,7 +27,6 @@ NOT_APPLICABLE = {
     "C07": "check not built yet in this round (specification planned in DESIGN.md section 6/C07); nothing is claimed until it is",
     "C08": "check not built yet in this round (specification planned in DESIGN.md section 6/C08); nothing is claimed until it is",
     "C09": "check not built yet in this round (specification planned in DESIGN.md section 6/C09); nothing is claimed until it is",
-    "C10": "check not built yet in this round (specification planned in DESIGN.md section 6/C10); nothing is claimed until it is",
     "C11": "check not built yet in this round (specification planned in DESIGN.md section 6/C11); nothing is claimed until it is",
     "C12": "check not built yet in this round (specification planned in DESIGN.md section 6/C12); nothing is claimed until it is",
     "C13": "check not built yet in this round (specification planned in DESIGN.md section 6/C13); nothing is claimed until it is",
